@@ -73,6 +73,12 @@ FORCED = [
     # POP3 QUIT with marks while IMAP works on INBOX
     [("pop3", ["DELE 1", "DELE 3", "QUIT"]), ("INBOX", ["UID COPY 1:5 other"]), ("INBOX", ["EXPUNGE"])],
     [("pop3", ["DELE 2", "QUIT"]), ("INBOX", ["UID MOVE 1:3 other"])],
+    # commands that carry *sequence numbers* racing a removal: they act on the messages the numbers meant when they were
+    # sent, or are refused -- never on what the numbers mean after the renumbering
+    [("INBOX", ["STORE 3 +FLAGS (\\Answered)", "NOOP"]), ("INBOX", ["EXPUNGE", "NOOP"])],
+    [("INBOX", ["FETCH 3:5 (UID FLAGS BODY.PEEK[HEADER.FIELDS (X-CID)])", "NOOP"]), ("INBOX", ["UID EXPUNGE 2", "NOOP"])],
+    [("INBOX", ["COPY 3:5 other", "NOOP"]), ("INBOX", ["EXPUNGE"]), ("INBOX", ["STORE 5 +FLAGS (\\Flagged)", "NOOP"])],
+    [("#", ["nodeleted"]), ("INBOX", ["STORE 4:5 FLAGS (kwx)", "NOOP"]), ("INBOX", ["UID MOVE 1:2 other"]), ("INBOX", ["MOVE 3 other", "NOOP"])],
 ]
 
 
